@@ -607,6 +607,165 @@ theorem doAssemble_sim (hinj : NumInj num) (henc : EncLen enc) (fs : Bytes → O
     · cases h
     · cases h
 
+/-! ## a whole file -/
+
+theorem fileBody_sim (hinj : NumInj num) (henc : EncLen enc) (fs : Bytes → Option Bytes) (inc : Inc)
+    (proj : List Bytes → Bytes → Bytes → Prop) (hincs : XIncSim num enc fs inc proj) (hinc : IncOk inc) (hincg : IncGrew inc)
+    (hincr : IncRel inc) (env1 : Env) (path : Bytes) (rest : List Bytes) (henv : env1.paths = path :: rest)
+    (data : Bytes) (pid id : Nat) (hpid : pid < id) (st2 st4 : St) (res : Res) (l2 : Layout.State) (avail : List Bytes)
+    (hproj : ∀ els perr, parseFile data = .ok (els, perr) → ElsOk fs path proj avail [] els)
+    (good : Good true st2) (r : R st2.seg l2) (hloc : st2.locals = some []) (hlt : st2.localTasks = some [])
+    (hlk : l2.tasks = []) (hfresh : ∀ j n, id ≤ j → l2.env.get (num j n) = none)
+    (hgn : Table.NoDef st2.globals) (hgr : EnvRel (num pid) st2.globals l2.env)
+    (hav : ∀ x ∈ avail, ∃ v, st2.globals.find x = some (some v))
+    (h : fileBody fs enc inc env1 data st2 = .ok (st4, res)) (herr : st4.errors = []) :
+    ∃ els perr t p l3 l4 A id', parseFile data = .ok (els, perr) ∧ id < id' ∧ res = .ok ∧
+      MRun l2 p l3 ∧ Layout.runTasks (withTasks [] l3) l3.tasks = .ok l4 ∧
+      Good true st4 ∧ TEq st4.globals (pub st2.globals A) ∧ Table.NoDef st4.globals ∧
+      st4.globalTasks = st2.globalTasks ∧
+      st4.localTasks = some [] ∧ st4.locals = some t ∧
+      cursor st4 = Layout.Ref.cursorAfter (cursor st2) p ∧ (∀ s ∈ p, s.wf = true) ∧
+      A.map Prod.fst = els.filterMap pubName ∧ (∀ xv ∈ A, t.val xv.1 = some xv.2) ∧
+      (∀ T : List Layout.Task, ∃ la, MRun (withTasks T l4) (aliases (num pid) (num id) A) la ∧ la.tasks = T ∧
+        R st4.seg la ∧ EnvRel (num pid) st4.globals la.env ∧
+        (∀ j n, j ≠ pid → (j < id ∨ id' ≤ j) → la.env.get (num j n) = l2.env.get (num j n)) ∧
+        (∀ E : Layout.Env, (∀ j n, id ≤ j → j < id' → E.get (num j n) = la.env.get (num j n)) →
+          EnvRel (num id) t E ∧ XFlat num fs enc E pid id path t (id + 1) (cursor st2) els p id')) := by
+  have henv' : env1.paths.isEmpty = false := by rw [henv]; rfl
+  obtain ⟨els, perr, hparse⟩ := parseFile_cases data
+  have hfb' := h
+  unfold fileBody at hfb'
+  rw [hparse] at hfb'
+  simp only at hfb'
+  cases hda : doAssemble fs enc inc env1 els perr st2 with
+  | stop x => rw [hda] at hfb'; cases hfb'
+  | ok w =>
+    obtain ⟨st3, res3⟩ := w
+    rw [hda] at hfb'
+    simp only at hfb'
+    have gda := doAssemble_grew hincg perr els _ st3 res3 hda
+    by_cases hfat : res3 = .err .fatal
+    · exfalso
+      rw [if_pos hfat] at hfb'
+      cases hfb'
+      subst hfat
+      exact absurd (grew_nil gda herr).2 (by simp)
+    · rw [if_neg hfat] at hfb'
+      cases htk : st3.localTasks with
+      | none => rw [htk] at hfb'; cases hfb'
+      | some tasks =>
+        rw [htk] at hfb'
+        simp only at hfb'
+        have gll := (localLoop_grew _ _ _ _ _ _ hfb').1
+        have herr3 : st3.errors = [] := by
+          rw [herr] at gll
+          exact List.eq_nil_of_length_eq_zero (by simpa using gll)
+        have hres3 : res3 = .ok := by
+          have := (grew_nil gda herr3).2
+          cases res3 with
+          | ok => rfl
+          | err lv => simp at this
+        subst hres3
+        obtain ⟨C, t₂, hC, ht₂, _, _⟩ := (doAssemble_rel hincr perr els st2 [] hloc _ _ hda).tabs
+        have sim2 : Multi.Sim (num id) enc t₂ st2.globalTasks st2.globals st2 l2 :=
+          ⟨good, r, ⟨[], hloc, fun n hh => by simp [Table.find] at hh, fun n v hh => by simp [Table.find] at hh,
+              fun n => by rw [hfresh id n (Nat.le_refl _)]; rfl⟩,
+            ⟨[], hlt, by rw [hlk]; trivial⟩, ⟨rfl, rfl⟩⟩
+        obtain ⟨p, lf, id', A, Gt', hle, hm, f2, hte, hpo, hAv, hAn, hPf, hcur, hwf, hframe, hflat⟩ :=
+          doAssemble_sim (t₂ := t₂) hinj henc fs inc proj hincs hinc hincg hincr env1 path rest henv perr pid id hpid st2.globals
+            hgn avail hav els st2 st3 l2 (id + 1) [] [] st2.globals (hproj els perr hparse) sim2 (fun _ => rfl) trivial
+            (fun x hx => by cases hx) hgr (fun x hx => by cases hx) (Nat.lt_succ_self _)
+            (fun j n hj => hfresh j n (by omega)) hda herr3 ht₂
+        rw [List.nil_append] at hte hpo
+        obtain ⟨t, e1, e2, _, e4⟩ := f2.tbl
+        rw [ht₂] at e1; cases e1
+        obtain ⟨qq, q1, q2⟩ := f2.tasks
+        rw [htk] at q1; cases q1
+        have gc := (good_clearLocal f2.good).1
+        have tsim : Multi.TSim (num id) t₂ st2.globalTasks Gt' { st3 with localTasks := some [] } (withTasks [] lf) :=
+          ⟨gc, f2.r, ht₂, e2, e4, rfl, f2.gl⟩
+        have hrounds : rounds = 6 + 2 := rfl
+        rw [hrounds] at hfb'
+        obtain ⟨l4, g1, g2, g3⟩ := Multi.localLoop_sim henc env1 henv' 6 tasks lf.tasks _ st4 _ res tsim q2
+          (fun t m => f2.good.lt tasks htk t m) hfb' herr
+        have hres : res = .ok := by
+          have := (localLoop_grew _ _ _ _ _ _ hfb').2
+          cases res with
+          | ok => rfl
+          | err lv =>
+            exfalso
+            rcases this rfl with h1 | h1
+            · simp [Res.isErr] at h1
+            · rw [herr, herr3] at h1; simp at h1
+        have he4 : l4.env = lf.env := Layout.runTasks_env _ (withTasks [] lf) l4 g1
+        have hte4 : TEq st4.globals (pub st2.globals A) := by rw [g2.gl.2]; exact hte
+        refine ⟨els, perr, t₂, p, lf, l4, A, id', hparse, by omega, hres, hm, g1, g2.good, hte4, hte4.nodef (nodef_pub hgn A),
+          g2.gl.1, g2.lq, g2.loc, by rw [← hcur]; exact g3, hwf, hAn, hAv, fun T => ?_⟩
+        have hgr4 : EnvRel (num pid) st2.globals (withTasks T l4).env := by
+          intro n
+          show l4.env.get (num pid n) = _
+          rw [he4]; exact hPf n
+        obtain ⟨la, a1, a2, a3, a4, a5, _, a7⟩ := alias_steps (num pid) (num id) (hinj.inj pid) A st2.globals (withTasks T l4) hpo hgn
+          hgr4 (fun xv hxv => by
+            show l4.env.get (num id xv.1) = _
+            rw [g2.env xv.1]; exact hAv xv hxv)
+          (fun a b hab => by have := (hinj _ _ _ _ hab).1; omega)
+        have hother : ∀ j n, j ≠ pid → la.env.get (num j n) = l4.env.get (num j n) := fun j n hj =>
+          a7 _ (fun x hx => hj (hinj _ _ _ _ hx).1)
+        refine ⟨la, a1, a4, ⟨fun k => by rw [a2]; exact g2.r.1 k, by rw [a3]; exact g2.r.2⟩,
+          fun m => by rw [a5 m, hte4.val m], fun j n hj hjr => ?_, fun E hE => ?_⟩
+        · rw [hother j n hj, he4]
+          exact hframe j n (by omega) (by omega)
+        · have hE' : ∀ j n, id ≤ j → j < id' → E.get (num j n) = l4.env.get (num j n) := fun j n h1 h2 => by
+            rw [hE j n h1 h2, hother j n (by omega)]
+          refine ⟨fun n => ?_, hflat E (fun j n h1 h2 => by rw [hE' j n (by omega) h2, he4])⟩
+          rw [hE' id n (Nat.le_refl _) (by omega)]
+          exact g2.env n
+
+/-- every file of the include tree below (`path`, `data`), to depth `fuel`, given the names `avail` its includer holds
+valued at the `.include` statement: `ElsOk` -/
+def XferProject (fs : Bytes → Option Bytes) : Nat → List Bytes → Bytes → Bytes → Prop
+  | 0, _, _, _ => True
+  | fuel + 1, avail, path, data => ∀ els perr, parseFile data = .ok (els, perr) →
+      ElsOk fs path (XferProject fs fuel) avail [] els
+
+theorem assembleFile_sim (hinj : NumInj num) (henc : EncLen enc) (fs : Bytes → Option Bytes) :
+    ∀ fuel, XIncSim num enc fs (assembleFile fs enc fuel) (XferProject fs fuel) := by
+  intro fuel
+  induction fuel with
+  | zero => intro env st st' data path pid id l tP avail _ _ _ _ _ _ _ _ _ _ h _; simp [assembleFile] at h
+  | succ fuel ih =>
+    intro env st st' data path pid id l tP avail hproj good henv r hlP hndP hrP hpid havP hfresh h herr
+    have hinc : IncOk (assembleFile fs enc fuel) := fun env st data path g => assembleFile_safe henc fs fuel true env st data path g
+    simp only [assembleFile, List.length_cons, Nat.add_one_ne_zero, if_false, ne_eq, not_true_eq_false] at h
+    obtain ⟨c, t, hc, ht, he⟩ := enterFile_true good
+    rw [hlP] at hc; cases hc
+    rw [he] at h
+    simp only at h
+    have g2 : Good true { st with locals := some [], globals := tP, localTasks := some [], globalTasks := t } :=
+      ⟨good.inv, fun t' m => good.lt t ht t' m, fun l e t' m => (by cases e; simp at m), good.ltab tP hlP,
+        fun l e => (by cases e; exact tableOk_nil), fun _ => ⟨rfl, rfl⟩, fun e => by cases e⟩
+    split at h
+    · rename_i st4 res hf
+      simp only [Out.ok.injEq, Prod.mk.injEq] at h
+      obtain ⟨hst, hres⟩ := h
+      subst hres
+      have herr4 : st4.errors = [] := by rw [← hst] at herr; exact herr
+      obtain ⟨els, perr, tt, p, l3, l4, A, id', hparse, hlt, _, hm, hrt, g4, e1, hnd, e2, e3, e4, hcur, hwf, hAn, hAv, hal⟩ :=
+        fileBody_sim hinj henc fs (assembleFile fs enc fuel) (XferProject fs fuel) ih hinc (assembleFile_grew fs enc fuel)
+          (assembleFile_rel fs enc fuel) ⟨path :: env.paths, path⟩ path env.paths rfl data pid id hpid _ st4 _ (withTasks [] l)
+          avail hproj g2 r rfl rfl rfl hfresh hndP hrP havP hf herr4
+      obtain ⟨la, a1, a2, a3, a4, a5, a6⟩ := hal l.tasks
+      refine ⟨els, perr, tt, p, l3, l4, A, la, id', st4.globals, hparse, hlt, hm, hrt, a1, a2, ?_, ?_, e1, hnd, a4, ?_, ?_, ?_, ?_,
+        hwf, a5, a6, hAn, hAv⟩
+      · rw [← hst]; exact a3
+      · rw [← hst]; rfl
+      · rw [← hst]; simp only [leaveFile]; rw [e2, ht]
+      · rw [← hst]; rfl
+      · rw [← hst]; rfl
+      · rw [← hst]; exact hcur
+    · cases h
+
 end
 
 end Trion.Asm.Xfer
